@@ -1433,6 +1433,17 @@ def algid(case, ctx):
         to = lambda v: (lambda o_, nn: l.x509_public_key_algor_to_der(v[0], v[1], o_, nn))
         # rsaEncryption without NULL decodes to (rsa, 0) and is re-encoded with NULL: tolerated reading of a non-conforming peer, not a canonicity defect
         roundtrip(ctx, "x509_public_key_algor", val, to(val), dcall, ref, case, reenc=(lambda vv: enc_bytes(to(vv))), what="x509_public_key_algor_to_der(%s)" % case["name"])
+        if case["name"] == "rsa":
+            # the second argument is ignored for rsaEncryption (the header calls it curve_or_null): every value has to give one well-formed
+            # AlgorithmIdentifier that decodes back consuming exactly its bytes
+            for v2 in (0, 1, 2, -1):
+                x = enc_bytes(to((rsa, v2)))
+                ok = len(x) >= 2 and x[0] == 0x30 and x[1] < 0x80 and 2 + x[1] == len(x)
+                ctx.check(ok, "x509_public_key_algor_to_der(rsaEncryption, %d) writes %s: not one SEQUENCE covering the bytes reported" % (v2, x.hex()),
+                          "x509_public_key_algor/rsa/encoding-not-one-element")
+                ret, consumed, left, vv = dcall(x)
+                ctx.check(ret == 1 and left == 0 and vv[0] == rsa, "x509_public_key_algor_from_der(to_der(rsaEncryption, %d)) ret=%d left=%d value=%r" % (v2, ret, left, vv),
+                          "x509_public_key_algor/rsa/roundtrip")
         if case["name"] == "sm2p256v1":
             dc2 = lambda m: dec(m, lambda i, nn: l.sm2_public_key_algor_from_der(i, nn), lambda: None)
             roundtrip(ctx, "sm2_public_key_algor", None, lambda o_, nn: l.sm2_public_key_algor_to_der(o_, nn), dc2, ref, case,
